@@ -72,7 +72,7 @@ func valuePackage(v ssa.Value) string {
 			pkg = f.Params[0].Parent().Package()
 		}
 		if pkg != nil {
-			return "+" + pkg.String()
+			return "+" + pkg.Pkg.Path()
 		}
 	}
 	return "-"
@@ -409,8 +409,22 @@ func stageSites(rep *lib.Report, round int) []cidT {
 		return nil
 	}
 
+	// how the real code renders the package of an alias label ("package <path>" on the pinned tree): read from the
+	// identifiers the real IsEntrypointNode builds (alias identifiers are the ones without Context)
+	aliasPrefix := ""
+	for _, c := range calls {
+		var e1 []cidT
+		taint.VerifIsEntrypointNode(state, true, c.instr.(ssa.Node), recorder(&e1))
+		for _, id := range e1 {
+			if id[fCtx] == "" && strings.HasPrefix(id[fPkg], "package ") {
+				aliasPrefix = "package "
+			}
+		}
+	}
+	rep.Count("alias-package-rendering:" + map[string]string{"package ": "ssa.Package.String()", "": "path"}[aliasPrefix])
 	// ---- oracle input
 	var in strings.Builder
+	in.WriteString(record("aliasprefix", aliasPrefix))
 	expect := []string{} // what each answered line is about
 	type pairT struct {
 		call   *dumpedCall
@@ -429,7 +443,7 @@ func stageSites(rep *lib.Report, round int) []cidT {
 				reg = c.reg
 			}
 			fields := []string{s.form, s.kind, s.parent, c.instr.String(), reg, s.callee.pkg, s.callee.name, s.callee.recv, s.iface,
-				map[bool]string{true: "1", false: "0"}[s.fnValue], s.wrapper, fmt.Sprint(len(s.impls))}
+				map[bool]string{true: "1", false: "0"}[s.fnValue], s.wrapper, aliasPrefix, fmt.Sprint(len(s.impls))}
 			for _, im := range s.impls {
 				fields = append(fields, im.pkg, im.name, im.recv)
 			}
